@@ -18,7 +18,7 @@ for isa, W in ISAS:
         HARNESSES.append(KH("O17.1/%s_%s" % (k, isa), "c17_o1_%s_%s" % (k, isa), "%s kernel (%s): no out-of-bounds access for any length 1..%d" % (k, isa, small), src="simd.rs",
                             functions=[("simd.rs", r"\w*%s\w*" % isa)],
                             bounds="len symbolic in 1..%d (single-chunk loop and every tail length); each input slice ends exactly at the end of its heap object" % small,
-                            tier="quick", timeout=900, replay="solver-only"))
+                            tier=("quick" if k in ("dot", "l2") else "thorough"), timeout=900, replay="solver-only"))
         HARNESSES.append(KH("O17.1/%s_%s_full" % (k, isa), "c17_o1_%s_%s_full" % (k, isa), "%s kernel (%s): no out-of-bounds access for any length 1..%d (4x-unrolled loop included)" % (k, isa, big), src="simd.rs",
                             functions=[("simd.rs", r"\w*%s\w*" % isa)], bounds="len symbolic in 1..%d" % big, tier="thorough", timeout=3000, replay="solver-only"))
 for _h in HARNESSES:
